@@ -70,7 +70,7 @@ REQUIRED = ["op:gbk:dump-compare", "op:gbk:fixed-point", "op:gbk:write-repeatabl
             "class:asdomain", "class:cds-motif", "class:prepeptide", "class:prepeptide-leader-core-tail",
             "class:module", "class:module-multi-cds", "class:region>=2-candidates", "class:t2pks",
             "class:header-reference", "class:external-cds-motif", "class:candidate-without-structure-after-one-with",
-            "class:origin-region-with-split-numbering"]
+            "class:origin-region-with-split-numbering", "class:same-span-genes-on-both-strands"]
 
 
 # --------------------------------------------------------------------------------------------------
@@ -735,6 +735,8 @@ def count_classes(ctx, facts: dict, spec: dict):
         ctx.count("class:kind:" + kind)
     if facts["max_candidates_per_region"] >= 2:
         ctx.count("class:region>=2-candidates")
+    if facts["same_span_genes_on_both_strands"]:
+        ctx.count("class:same-span-genes-on-both-strands")
     if facts["candidates_with_structure"]:
         ctx.count("class:candidate-with-structure")
     if facts["candidate_without_structure_after_one_with"]:
@@ -886,7 +888,7 @@ def compare_dumps(ctx, fmt, original, observed, case, base_facts):
 
 def run(ctx):
     A.quiet()
-    n = ctx.quota(240, 8000)
+    n = ctx.quota(420, 8000)
     for i in ctx.cases(n, every=4):
         rng = ctx.rng("case", i)
         spec = A.gen_spec(rng, length=rng.choice([4000, 6000, 9000]) if ctx.tier == "quick" else None)
